@@ -177,7 +177,7 @@ class Origins:
             for fname, fex in ex[1][4]:
                 if fname == name:
                     return fex
-        return ("field", ex, name)
+        return ("field", ex, name, p.get("ty", ""))
 
     def local(self, l, bb, idx, depth=0):
         key = (l, bb, idx)
@@ -233,7 +233,7 @@ class Origins:
             f = cs.term["func"]
             fex = self.operand(f, cs.bb, len(self.body.blocks[cs.bb]["stmts"]), depth + 1)
             return ("callind", fex, args, cs.loc())
-        return ("call", cs.callee, cs.decl, args, cs.loc())
+        return ("call", cs.callee, cs.decl, args, cs.loc(), cs.term.get("dty", ""))
 
     def rvalue(self, rv, bb, idx, depth):
         return simplify(self._rvalue(rv, bb, idx, depth))
